@@ -88,10 +88,16 @@ def coq_build(prop_id, timeout=1500):
         pass
     try:
         rc, out, err = sh("make -k -j16 %s" % target, cwd=COQ, timeout=timeout)
+        # the constants the model shares with the C++ (Gen/Consts.v was regenerated from /repo just before)
+        rc2, out2, err2 = sh("make -k -j16 Gen/ConstsTie.vo", cwd=COQ, timeout=timeout)
     except subprocess.TimeoutExpired:
         res["log"] = "coq build timed out"
         return res
     res["log"] = (out + err)[-8000:]
+    if rc2 != 0:
+        res["log"] += "\nconstants tie (coq/Gen/ConstsTie.v) no longer checks:\n" + (out2 + err2)[-3000:]
+        res["theorems"] = res["theorems"] + ["ConstsTie"]
+        return res
     if rc != 0 or not os.path.exists(os.path.join(COQ, target)):
         return res
     # parse Print Assumptions output: blocks follow in the order of the Print commands
@@ -128,7 +134,7 @@ def model_build(timeout=900):
     """(re)build every model .vo needed for extraction, extract, compile OCaml."""
     ensure_makefile()
     exe = os.path.join(OCAML_OUT, "simmodel")
-    rc, out, err = sh("make -k -j16 $(grep -E '^(Base|Model|Gen)/' _CoqProject | sed 's/\\.v$/.vo/')", cwd=COQ, timeout=timeout)
+    rc, out, err = sh("make -k -j16 $(grep -E '^(Base|Model|Gen)/' _CoqProject | grep -v ConstsTie | sed 's/\\.v$/.vo/')", cwd=COQ, timeout=timeout)
     if rc != 0:
         return None, "model does not compile:\n" + (out + err)[-4000:]
     vos = glob.glob(os.path.join(COQ, "Base", "*.vo")) + glob.glob(os.path.join(COQ, "Model", "*.vo")) + \
